@@ -67,7 +67,7 @@ pub fn spec_for(property: &str) -> Option<CheckSpec> {
         "C02" => CheckSpec {
             property: "C02".into(),
             level: "exploration",
-            profiles: vec![p("seq", 6), p("seq-manyversions", 2), p("seq-maint", 2)],
+            profiles: vec![p("seq", 6), p("seq-manyversions", 2), p("seq-maint", 2), p("restart", 2)],
             thorough_extra: vec![],
             quick_runs: 8_000,
             thorough_runs: 400_000,
